@@ -28,6 +28,34 @@ CHECKS = {
          "and two UNCONSTRAINED tail tokens, in every mode combination, the solver shows Parse succeeds, remaining ends with exactly the tail, no option/Called state "
          "or dispatch target changes because of the tail.",
          "two tail tokens, one context token group before `--`; the exempted case (`--` as a still-missing mandatory value) is only checked for returning normally; "),
+ "C05": ("Three option names and the typed text are SYMBOLIC strings over [A-Za-z0-9] (pairwise distinct, any length; the third optionally an alias, optionally used after a command token, "
+         "long / Normal-short / Bundling one-letter spelling): from the same prefix predicate the solver shows exact names win, a unique prefix acts as the full name with CalledAs = full name, "
+         ">=2 candidates without an exact match always give an error listing every candidate with nothing set or called; a second harness resolves the same text at two command levels.",
+         "three declared names, one option token (+ its value), default unknown mode; "),
+ "C06": ("Relational: 1-2 occurrences of an option of 6 kinds, each spelled by a symbolically chosen alias (long, one ASCII letter, one multibyte letter) vs. the primary name on two fresh definitions "
+         "must agree on every value, on remaining and on error-ness; Called is true under every name, CalledAs is the spelling last used, *Var target and Value(x) agree; "
+         "12 sibling options of all kinds with SYMBOLIC defaults keep them and report Called false; SetCalled is honoured.",
+         "<=2 occurrences, 3 aliases, values are arbitrary strings (ints: canonical numerals); "),
+ "C07": ("Relational, no oracle: in Normal mode -NAME[=v] vs --NAME[=v] for EVERY name text; in Bundling mode -xyz[=v] vs -x -y -z[=v] for declared letters; in SingleDash mode -xREST vs --x=REST for every REST "
+         "(x one of 5 letters incl. a 2-byte one) and -x vs --x; any token starting with `--` under two different modes: all values, Called, CalledAs, remaining and error-ness must be equal.",
+         "one option token plus an optional detached value; bundles of 2-3 declared letters; REST for the int option <=6 bytes; UTF-8 sequences of 1-2 bytes (longer/invalid cut and counted); default unknown mode; "),
+ "C08": ("An unknown option (--x, --x=w with SYMBOLIC x matching no declared name as prefix, or -y) placed alone, between known options, before a command token, after one, or inside an UnsetOptions+Pass wrapper, "
+         "in 3 modes x 3 unknown modes: Fail gives an error naming it with nil remaining, Warn writes a warning naming it and keeps it in remaining, Pass keeps it silently; surrounding known options take effect.",
+         "one unknown token among <=3 other tokens; require-order off; "),
+ "C09": ("With require-order, for 6 kinds of satisfied option groups before the stop point, 3 kinds of stop token (positional, unknown option with symbolic name, `-`) and two UNCONSTRAINED tail tokens: "
+         "remaining is exactly [stop, t1, t2] and all values/Called equal those of a second run of the prefix alone without require-order; a command-name token before the stop still descends.",
+         "two tail tokens, one option group before the stop; "),
+ "C10": ("14 command-line shapes over a 3-level tree (inherited root option, command with child, command without function, UnsetOptions wrapper with own option and child, command-only require-order, optional help command) "
+         "with symbolic payloads: exactly one instrumented CommandFn runs (none + error where the command has no function), with the caller's context, the remaining list Parse returned and the parsed own/inherited option values; "
+         "a command name as option value, after `--` or after the require-order stop does not select.",
+         "fixed tree of depth 3, shapes enumerated in harness c10.go; "),
+ "C11": ("Required option at root / inherited / command-own, with or without custom message (SYMBOLIC text), supplied by name, alias, unique abbreviation, environment or not at all, crossed with help requested by option, alias, "
+         "abbreviation, help command, `help <topic>`, `help <unknown>`: missing => ErrorParsing carrying the message and no CommandFn; supplied => the addressed CommandFn runs; help => help text of that level written, "
+         "ErrorHelpCalled, nothing runs, no missing-required error; unknown topic => error.",
+         "tree of depth 2, one required option; "),
+ "C12": ("For bool and the six scalar kinds with SYMBOLIC default, environment unset / empty / arbitrary SYMBOLIC text and the option absent, given as --name=v or as --name v with arbitrary v: "
+         "command line wins (bool: negated default); else a valid environment text is converted exactly (true/false case-insensitively), Called is true and CalledAs is the variable name; else the default; unset/empty changes nothing.",
+         "single option; environment texts without NUL bytes; Called on an invalid numeric environment text is not asserted (statement silent); "),
 }
 
 NOT_YET = "check not built yet in this session (work in progress; see DESIGN.md section 12)"
